@@ -1,5 +1,6 @@
 import MithrilModel.Proto
 import MithrilModel.ChainClient
+import MithrilModel.ChainSession
 namespace Handlers.C03
 open Proto Chain
 
@@ -56,8 +57,28 @@ def clientReq (r : Req) : Option String := do
   let cacheF := fun h => (cache.find? (·.1 == h)).map (·.2)
   pure (showRes (clientVerify retr cacheF true fuel start))
 
+/-- `c03.session cache=[(h,p)…] calls=[(fuel,<start cert>,[(hashId,<cert>)…])…]` → results `;`-joined ` | ` the cache
+afterwards restricted to `keys=[…]` -/
+def sessionReq (r : Req) : Option String := do
+  let cache ← (← r.list "cache").mapM fun e =>
+    match e with
+    | .l [k, p] => do pure (← k.nat?, ← p.nat?)
+    | _ => none
+  let keys ← r.nats "keys"
+  let calls ← (← r.list "calls").mapM fun e =>
+    match e with
+    | .l [fuel, start, served] => do
+      let sv ← parseServed served
+      pure ((fun h => (sv.find? (·.1 == h)).map (·.2)), ← fuel.nat?, ← parseCert start)
+    | _ => none
+  let cacheF := fun h => (cache.find? (·.1 == h)).map (·.2)
+  let (rs, c') := session true cacheF calls
+  let dump := keys.filterMap fun k => (c' k).map fun p => s!"({k},{p})"
+  pure (String.intercalate ";" (rs.map showRes) ++ " | " ++ String.intercalate "," dump)
+
 def handle (r : Req) : Option String :=
   match r.op with
+  | "c03.session" => sessionReq r
   | "c03.chain" => chainReq r
   | "c03.client" => clientReq r
   | _ => none
